@@ -1,6 +1,7 @@
 /- Driver glue for C01: specification terms, model table, certificate check of the
    implementation's table (with unverified helpers computing the certificate). -/
 import PS.Drv.Wire
+import PS.Model.CfgInfinite
 namespace PS.C01
 open PS PS.G PS.Wire Sexp
 
@@ -80,6 +81,16 @@ def handle : Sexp → Option Sexp
         .list (G.rules.map fun e => .list [encNT e.1, ofBool (sameRules e.2 ((ruleSet P e.1).filter (fun r => r.2.all (isKey G)))),
             .list ((ruleSet P e.1).map fun r => encRule (r.1, (r.2, ())))])])
   | .list [.atom "c01.show", t] => do pure (.str (showProg (← decProg t)))
+  -- CFG.infinite: model table, programs(), and for each program: membership in the model's
+  -- table (containsRec, gen), the statement's unbounded spec (wtITop), what the code implements
+  | .list [.atom "c01.infinite", p, fuel, .list progs] => do
+      let P ← decParams p
+      let progs ← allSome decProg progs
+      let spec := .list (progs.map fun t => .list [ofBool (wtITop P t), ofBool (wtI P (effParent P) t none P.request.returns)])
+      match buildTableInf P (← fuel.nat?) with
+      | none => pure (.list [.atom "none", spec])
+      | some G => pure (.list [.atom "some", spec, encCFG G, match programsInf G with | some n => ofNat n | none => .atom "-1",
+          .list (progs.map fun t => .list [ofBool (contains G t), ofBool (gen G t G.start)])])
   | _ => none
 
 end PS.C01
